@@ -1,7 +1,9 @@
 package vsched
 
 import (
+	"cmp"
 	"reflect"
+	"slices"
 )
 
 // Channel operations of transformed code. Buffered channels keep using the real channel as
@@ -225,4 +227,14 @@ func SendNow[T any](ch chan<- T, v T) {
 	default:
 		panic("vsched: modelled select-send would block")
 	}
+}
+
+// SortedKeys makes `range` over a map deterministic (keys in ascending order).
+func SortedKeys[M ~map[K]V, K cmp.Ordered, V any](m M) []K {
+	keys := make([]K, 0, len(m))
+	for k := range m {
+		keys = append(keys, k)
+	}
+	slices.Sort(keys)
+	return keys
 }
